@@ -17,9 +17,6 @@ package par2
 //@ func (fileIO).FindWithPrefixAndSuffix
 //@   assume-contract environment: directory listing
 //@   modifies nothing
-//@ func (fileIO).WriteFile
-//@   assume-contract environment: ioutil.WriteFile / memfs
-//@   modifies nothing
 
 
 // ---- packet.go -------------------------------------------------------------
@@ -211,3 +208,61 @@ package par2
 //@   ensures implies(result1 == nil && result0 != nil, result0.recoveryPackets != nil && mapall(result0.recoveryPackets, v, len(v.data) == d.sliceByteCount))
 //@   loop 0
 //@     invariant visitedall(parityFile.recoveryPackets, v, len(v.data) == d.sliceByteCount)
+
+// ---- create.go / repair.go: exit-status helpers (C20) -------------------------
+
+//@ func ExitCodeForCreateErrorPar2CmdLine
+//@   props C20
+//@   pure
+//@   ensures result == ite(err != nil, 6, 0)
+
+// Repair necessary but not possible <=> the error is rsec16's dedicated not-enough-parity error.
+//@ func RepairErrorMeansRepairNecessaryButNotPossible
+//@   props C20
+//@   pure
+//@   ensures result == hastype(err, "github.com/akalin/gopar/rsec16.NotEnoughParityShardsError")
+
+// repair() reports success only after Decoder.Repair ran (once) and returned nil, and
+// passes Decoder.Repair's error class through unchanged, so that the exit status of
+// `par r` reflects what Repair found.
+//@ ghost gRepairCalls int = 0
+//@ ghost gRepairOK bool = false
+//@ ghost gRepairNotEnough bool = false
+//@ func repair
+//@   props C20 C02
+//@   skip-safety
+//@   requires fileIO != nil
+//@   ensures implies(result1 == nil, gRepairCalls == old(gRepairCalls) + 1 && gRepairOK)
+//@   ensures implies(gRepairCalls == old(gRepairCalls) + 1, (result1 == nil) == gRepairOK && hastype(result1, "github.com/akalin/gopar/rsec16.NotEnoughParityShardsError") == gRepairNotEnough)
+//@   ensures gRepairCalls == old(gRepairCalls) || gRepairCalls == old(gRepairCalls) + 1
+
+// ---- Decoder.Repair: what is written, and what is reported (C02) ------------------
+// Every file handed to WriteFile has exactly the protected length, MD5 and 16k-MD5 and goes to
+// the path derived from its own description; a path is appended to the result only
+// directly after its own successful write, and every successful write is listed.
+//@ ghost gWrites int = 0
+//@ ghost gWritesOK int = 0
+//@ ghost gLastWriteOK bool = false
+//@ ghost gLastWritePath str = ""
+//@ func (fileIO).WriteFile
+//@   assume-contract environment: ioutil.WriteFile / memfs
+//@   modifies nothing
+//@   ghost-set gWrites = gWrites + 1
+//@   ghost-set gWritesOK = ite(result == nil, gWritesOK + 1, gWritesOK)
+//@   ghost-set gLastWriteOK = (result == nil)
+//@   ghost-set gLastWritePath = path
+
+//@ func (*Decoder).Repair
+//@   props C02 C20 C14 C19
+//@   skip-safety
+//@   ghost-set gRepairCalls = gRepairCalls + 1
+//@   ghost-set gRepairOK = (result1 == nil)
+//@   ghost-set gRepairNotEnough = hastype(result1, "github.com/akalin/gopar/rsec16.NotEnoughParityShardsError")
+//@   assert-call fileIO.WriteFile : len(arg1) == decoderInputFileInfo.byteCount && md5(bytes(arg1)) == decoderInputFileInfo.hash && md5(bytes(arg1[:min(len(arg1), 16384)])) == decoderInputFileInfo.sixteenKHash
+//@   assert-call fileIO.WriteFile : !wasOK[i]
+//@   assert-call append : gLastWriteOK && gLastWritePath == path
+//@   ensures len(result0) == gWritesOK - old(gWritesOK)
+//@   loop 3
+//@     invariant len(repairedPaths) == gWritesOK - old(gWritesOK)
+//@   loop 4
+//@     invariant len(repairedPaths) == gWritesOK - old(gWritesOK)
